@@ -1,4 +1,5 @@
 from sqv.driver import Obligation
+from sqv.props.c06 import lxc_precheck, lxc_obligations
 from sqv import nodes
 
 
@@ -29,7 +30,9 @@ def plan(ctx):
     for i, text in enumerate(h.TEMPLATES):
         obs.append(Obligation(f"api.t{i}", "xh", "c18", "api_lookups", param={"t": i}, timeout=T, bounds="host values symbolic",
                               desc=f"eval({text!r}) with a recording host mapping: every requested key is in list_names(text) or implicit"))
+    obs += lxc_obligations(ctx, ['names'])
     return {
+        "precheck": lxc_precheck,
         "obligations": obs, "uncovered": uncovered,
         "explanation": "CrossHair (z3): list_names over a symbolic token stream (lexer stubbed), the NAME rule's keyword re-typing, the name "
                        "fields every real grammar action can put into a tree (actions taken from the parser tables), and the names each node "
